@@ -604,6 +604,18 @@ pub fn realise(raw: &RawFacts, cfg: &GenCfg) -> Facts {
             });
         }
     }
+    // two records of a kind under one name (two gene ids with the same symbol), in half of these cases on a common term
+    if raw.keys.len() >= 64 && raw.keys[60] % 4 == 0 {
+        let k = (raw.keys[59] % 3) as usize;
+        if recs[k].len() >= 2 {
+            recs[k][1].name = recs[k][0].name.clone();
+            if raw.keys[58] % 2 == 0 {
+                if let Some(t) = recs[k][0].terms.first().copied() {
+                    recs[k][1].terms.insert(0, t);
+                }
+            }
+        }
+    }
     let mut f = Facts {
         // calendar-like versions keep a four-digit year; the Builder and the binary format take any (u16, u8, u8)
         version: if raw.version.1 > 12 || raw.version.2 > 31 { raw.version } else { (raw.version.0 % 10000, raw.version.1, raw.version.2) },
